@@ -149,22 +149,22 @@ def family_pipeline(fam, progs, outdir, cap=20000, do_mc=True, workers=8, max_di
     if not tres["ok"]:
         problems.append({"kind": "tlc-error", "where": "TraceShuttle", "errors": tres["errors"][:5],
                          "sig": f"{fam}/tlc-error/trace", "out": tres["out"]})
-    inv_nodes = {}
-    for pl in vlib.tlc_lines(tres["out"], "INV"):
-        nid, names = pl.split(", ", 1)
-        for nm in names.strip("{}").split(","):
-            inv_nodes.setdefault(nm.strip().strip('"'), []).append(int(nid))
-    if inv_nodes:
+    inv_leaves = {}
+    for leaf, names in tres.get("leaf_violations", {}).items():
+        for nm in names:
+            inv_leaves.setdefault(nm, []).append(leaf)
+    if inv_leaves:
         nodes, parent = vlib.load_trie(outdir)
-        for nm, nids in inv_nodes.items():
-            nid = min(nids)
-            path = vlib.path_to(nodes, parent, nid)
+        for nm, lvs in inv_leaves.items():
+            leaf = min(lvs)
+            path = vlib.path_to(nodes, parent, leaf)
             pid = nodes[path[0]]["ev"]["p"]
             evs = [nodes[n]["ev"] for n in path]
-            prev = last_op_before(evs, len(evs))
-            problems.append({"kind": "invariant-violated", "invariant": nm, "prog": by_id[pid], "count": len(nids),
-                             "events": evs, "matched": len(evs), "spec_state": "(state after the last event shown)",
-                             "sig": f"{fam}/invariant/{nm}/at:{evs[-1].get('e')}" + (":" + evs[-1]["k"] if "k" in evs[-1] else "")})
+            d = vlib.diagnose_invariant(outdir, nodes, parent, leaf, nm)
+            at = evs[d - 1] if 0 < d <= len(evs) else evs[-1]
+            problems.append({"kind": "invariant-violated", "invariant": nm, "prog": by_id[pid], "count": len(lvs),
+                             "events": evs[:d], "matched": d, "spec_state": "(state after the last event shown)",
+                             "sig": f"{fam}/invariant/{nm}/at:{at.get('e')}" + (":" + at["k"] if "k" in at else "")})
     missing = sorted(leaves - reached)
     diag_done = 0
     if missing:
@@ -245,8 +245,13 @@ def family_pipeline(fam, progs, outdir, cap=20000, do_mc=True, workers=8, max_di
 # ---------------------------------------------------------------------------------------------
 # Property table.  Each stage: (family, programs quick, programs thorough, do_mc)
 
-def F(fam, q, t, mc=True, sample=None, pb=None):
-    return {"fam": fam, "quick": q, "thorough": t, "mc": mc, "sample": sample, "pb": pb}
+def F(fam, q, t, mc=True, sample=None, pb=None, clock=False):
+    return {"fam": fam, "quick": q, "thorough": t, "mc": mc, "sample": sample, "pb": pb, "clock": clock}
+
+
+def K(fam, q, t, pb=None):
+    """all executions with the vector clock logged after every operation (Clocks.tla checks)"""
+    return F(fam, q, t, mc=False, pb=pb, clock=True)
 
 
 def S(fam, q, t):
@@ -255,6 +260,15 @@ def S(fam, q, t):
 
 
 SHUTTLE_PROPS = {
+    "C15": {"stages": [K("kernel", 8, 120), K("mutex", 8, 120), K("atomic", 8, 150), K("rwlock", 8, 120), K("condvar", 8, 150),
+                       K("mpsc", 12, 200), K("mpsc_drop", 8, 150), K("barrier", 8, 120), K("barrier_reuse", 6, 80),
+                       K("once", 8, 120), K("statics", 6, 100), K("sem_fair", 8, 150), K("sem_unfair", 8, 150),
+                       K("async_noabort", 8, 120), K("async", 8, 120), K("corpus_sync", 0, 0), K("corpus_mpsc", 0, 0),
+                       K("corpus_locks", 0, 0), K("corpus_sync_pb", 0, 0, pb=2)],
+            "kinds": {"invariant-violated", "trace-rejected", "harness-crash", "tlc-error"},
+            "assume": ["soundness against the edges the property lists; precision against the object-conservative relation (every operation on an object after every earlier one on it, plus tasks queued on it)",
+                       "no edge is claimed for a lazy static that is already initialised, for park/unpark, or for failed try operations",
+                       "target-clock replay (ReplayScheduler::set_target_clock) is not covered yet"]},
     "C17": {"stages": [F("async", 30, 300), F("async_noabort", 24, 250), F("async_sem", 24, 250),
                        {"fam": "async", "quick": 10, "thorough": 100, "mc": False, "sample": (40, 300), "pb": None}],
             "assume": ["one awaiter per hand-written waker slot; aborted futures contain no blocking std calls",
@@ -320,11 +334,11 @@ def stage_programs(fam, n):
     return gen.family(fam, n, vlib.seed())
 
 
-def cached_pipeline(fam, progs, tier, cap, do_mc, sample=None, pb=None):
+def cached_pipeline(fam, progs, tier, cap, do_mc, sample=None, pb=None, clock=False):
     """Family results are shared between the checks of one tree: the key covers the harness binary
     (rebuilt from /repo's working tree just before), the specification, the tools and the programs."""
     import hashlib
-    key = hashlib.sha256(json.dumps([vlib.bin_hash(), vlib.spec_hash(), fam, tier, cap, do_mc, sample, pb, vlib.seed(), progs],
+    key = hashlib.sha256(json.dumps([vlib.bin_hash(), vlib.spec_hash(), fam, tier, cap, do_mc, sample, pb, clock, vlib.seed(), progs],
                                     sort_keys=True).encode()).hexdigest()[:24]
     cdir = os.path.join(vlib.WORK, "cache")
     os.makedirs(cdir, exist_ok=True)
@@ -336,8 +350,8 @@ def cached_pipeline(fam, progs, tier, cap, do_mc, sample=None, pb=None):
             return r
         except Exception:
             pass
-    out = os.path.join(vlib.WORK, f"run-{fam}-{tier}" + ("-s" if sample else "") + (f"-pb{pb}" if pb is not None else ""))
-    r = family_pipeline(fam, progs, out, cap=cap, do_mc=do_mc, sample=sample, pb=pb)
+    out = os.path.join(vlib.WORK, f"run-{fam}-{tier}" + ("-s" if sample else "") + (f"-pb{pb}" if pb is not None else "") + ("-clk" if clock else ""))
+    r = family_pipeline(fam, progs, out, cap=cap, do_mc=do_mc, sample=sample, pb=pb, clock=clock)
     r.pop("meta", None)
     # keep a few sample traces for the evidence
     r["sample"] = sample_trace(out)
@@ -771,7 +785,9 @@ def run_property(pid, tier):
         smp = st["sample"][0 if tier == "quick" else 1] if st.get("sample") else None
         pbv = st.get("pb")
         pcap = cap if pbv is None else (25000 if tier == "quick" else 400000)
-        r = cached_pipeline(st["fam"], progs, tier, pcap, st["mc"], sample=smp, pb=pbv)
+        if st.get("clock"):
+            pcap = 600 if tier == "quick" else 100000
+        r = cached_pipeline(st["fam"], progs, tier, pcap, st["mc"], sample=smp, pb=pbv, clock=bool(st.get("clock")))
         fams.append(r["summary"])
         for k, v in r["summary"].items():
             if isinstance(v, (int, float)) and k not in ("wall",) and not k.startswith("t_"):
